@@ -275,9 +275,12 @@ fn main() {
 pub fn compactkill_stream(a: &snel_harness::out::Args) {
     use serde_json::json;
     use snel_harness::sys::Session;
-    const POINTS: [&str; 7] = [
+    const POINTS: [&str; 9] = [
         "compact.output_written",
         "handover.before_index_save",
+        // inside SegmentIndex::save: temporary file complete / renamed over segments.idx
+        "segidx.tmp_written",
+        "segidx.renamed",
         "handover.index_saved",
         "handover.lock_released",
         "handover.live_updated",
@@ -325,7 +328,9 @@ pub fn compactkill_stream(a: &snel_harness::out::Args) {
         let before = read(&mut s);
         let dirs_before: BTreeMap<String, BTreeMap<String, (u64, u64)>> = list_dirs(&s.shard_data_dir(0));
         let desc = format!("compactkill cap={cap} k={} segs={nseg} kill@{point}", cfg.segments_per_merge);
-        s.arm_crash(point, 1);
+        // the index-save points were already passed by the flushes above: die at the NEXT hit
+        let seen = s.ctl(json!({"ctl": "hits", "point": point})).and_then(|v| v["hits"].as_u64()).unwrap_or(0);
+        s.arm_crash(point, seen + 1);
         let _ = s.compact(0);
         let died = s.wait_dead(3000);
         if !died {
